@@ -1,5 +1,6 @@
 /- chunk- and message-level lemmas for C17 (and C20's allocation clauses) -/
 import NngModel.Proofs.BytesLemmas
+import NngModel.Generated.Base
 namespace Nng.Msg
 open Nng
 
